@@ -82,10 +82,10 @@ def libbuild(kind="asan"):
     with lock("libbuild-" + kind):
         if os.path.exists(os.path.join(bdir, ".ok")):
             return bdir
-        # drop builds of other hashes (disk is limited)
-        for old in glob.glob(os.path.join(WORK, "build-%s-*" % kind)):
-            if old != bdir:
-                shutil.rmtree(old, ignore_errors=True)
+        # drop old builds of other hashes (disk is limited): keep the two most recent besides this one
+        olds = sorted((o for o in glob.glob(os.path.join(WORK, "build-%s-*" % kind)) if o != bdir), key=os.path.getmtime)
+        for old in olds[:-2]:
+            shutil.rmtree(old, ignore_errors=True)
         shutil.rmtree(bdir, ignore_errors=True)
         t0 = time.time()
         cfg = ["cmake", "-G", "Ninja", "-S", REPO, "-B", bdir, "-DCMAKE_BUILD_TYPE=RelWithDebInfo",
@@ -118,7 +118,7 @@ def cc_harness(src, bdir, kind="asan", extra=(), wrap=False, out=None, libs=("mf
         if os.path.exists(outp) and all(os.path.getmtime(outp) >= os.path.getmtime(d) for d in deps):
             return outp
         flags = (ASAN_FLAGS if kind == "asan" else PLAIN_FLAGS).split()
-        cmd = ["gcc"] + flags + ["-w", "-I" + os.path.join(REPO, "hdf/src"), "-I" + os.path.join(REPO, "mfhdf/src"),
+        cmd = ["gcc"] + flags + ["-w", "-I" + REPO, "-I" + os.path.join(REPO, "hdf/src"), "-I" + os.path.join(REPO, "mfhdf/src"),
                                  "-I" + os.path.join(REPO, "hdf/util"), "-I" + os.path.join(REPO, "mfhdf/hrepack"),
                                  "-I" + os.path.join(REPO, "mfhdf/hdiff"),
                                  "-I" + bdir, "-I" + os.path.join(bdir, "hdf/src"), "-I" + os.path.join(bdir, "mfhdf/src"),
